@@ -1,4 +1,5 @@
-(* ===== Cons.v ===== *)
+(* ===== Cons.v : the linear-constraint compiler (C16): tokenizer + shunting-yard with ConstraintOperatorResolver's table +
+   the ScaledFactor set algebra as association lists + get_matrix.  No proofs in this file. *)
 From Coq Require Import List NArith ZArith QArith Qcanon Bool Arith.
 Import ListNotations.
 Require Import Tok.
@@ -80,8 +81,7 @@ Definition opener_of (c : str) : option str := if leqb c [cRP] then Some [cLP] e
 Fixpoint close_ctx (opener : str) (stk : list sitem) (out : list ast) : res (list ast * list sitem) :=
   match stk with
   | [] => inr 0%nat
-  | SCtx t i :: stk' => if leqb t opener then inl (out, stk') else
-                          match operate (SCtx t i) out with inl out' => close_ctx opener stk' out' | inr e => inr e end
+  | SCtx t i :: stk' => if leqb t opener then (if (i =? length out)%nat then inr 0%nat else inl (out, stk')) else inr 0%nat
   | it :: stk' => match operate it out with inl out' => close_ctx opener stk' out' | inr e => inr e end
   end.
 Definition mstep (t : tk) (st : list ast * list sitem) : res (list ast * list sitem) :=
@@ -112,7 +112,7 @@ Definition to_ast (ts : list tk) : res (option ast) :=
   end.
 
 (* ---------- scaled-factor algebra ---------- *)
-Definition sfac := (option str * Qc)%type.        (* None = the constant 1 *)
+Notation sfac := (option str * Qc)%type (only parsing).        (* None = the constant 1 *)
 Definition key_eqb (a b : option str) := match a, b with None, None => true | Some x, Some y => leqb x y | _, _ => false end.
 Fixpoint find_k (k : option str) (l : list sfac) : option Qc :=
   match l with [] => None | (k', q) :: r => if key_eqb k k' then Some q else find_k k r end.
